@@ -92,9 +92,6 @@ func (e *SentinelEntry) Exit(exitOps ...ExitOption) {
 	if ctx == nil {
 		return
 	}
-	if options.err != nil {
-		ctx.SetError(options.err)
-	}
 	e.exitCtl.Do(func() {
 		defer func() {
 			if err := recover(); err != nil {
@@ -104,6 +101,11 @@ func (e *SentinelEntry) Exit(exitOps ...ExitOption) {
 				e.sc.RefurbishContext(ctx)
 			}
 		}()
+		// Only the first Exit may touch the context: after it the context is recycled
+		// and may already belong to another entry.
+		if options.err != nil {
+			ctx.SetError(options.err)
+		}
 		for _, handler := range e.exitHandlers {
 			if err := handler(e, ctx); err != nil {
 				logging.Error(err, "Fail to execute exitHandler in SentinelEntry.Exit()", "resource", e.Resource().Name())
